@@ -137,6 +137,16 @@ pub fn class_stmt(g: &mut Gen, out: &mut Vec<Stmt>) {
                 // Self denotes the class the method was invoked through
                 body.push(Stmt::print(Expr::CapSelf));
             }
+            // a static method of the superclass reached through super: Self stays what it was
+            if let Some((_, si)) = &superclass {
+                let statics: Vec<_> = all_methods(g, *si).into_iter().filter(|m| m.2 && m.0 <= mname).collect();
+                if !statics.is_empty() && g.rd.chance(2, 3) {
+                    let (sn, sa, _) = statics[g.rd.below(statics.len())].clone();
+                    let args: Vec<Expr> = (0..sa).map(|q| Expr::Num(q as f64 + 4.0)).collect();
+                    g.label_pub("super_static_call");
+                    body.push(Stmt::print(Expr::SuperInvoke(sn, args, ln())));
+                }
+            }
         } else {
             // read a field (possibly one that only a subclass or nobody defines)
             if !fields.is_empty() && g.rd.chance(2, 3) {
@@ -507,4 +517,260 @@ pub fn fiber_stmts(g: &mut Gen, out: &mut Vec<Stmt>) {
 
 fn yield_expr(arg: Option<Expr>) -> Expr {
     Expr::invoke(Expr::var("Fiber"), "yield", arg.into_iter().collect())
+}
+
+/// Iteration idioms: user-defined iterators (deriving Iter or not, with a separate iterator object,
+/// with `next` stored in a field), loops sharing one iterator, mutation of a vector while it is
+/// being iterated, early exits from loops over adapters.
+pub fn iter_template(g: &mut Gen, out: &mut Vec<Stmt>) {
+    g.label_pub("iter_template");
+    let n = |x: f64| Expr::Num(x);
+    let v = |x: &str| Expr::var(x);
+    let ret = |e: Expr| Stmt::new(StmtKind::Return(Some(e)));
+    let setf = |f: &str, e: Expr| Stmt::expr(Expr::assign(Target::Prop(Expr::SelfE, f.to_string()), e));
+    let getf = |f: &str| Expr::get(Expr::SelfE, f);
+    let stop = || Expr::invoke(v("StopIter"), "new", vec![]);
+    match g.rd.below(7) {
+        0 | 1 => {
+            // a counting iterator class; deriving Iter gives it map/filter/collect/reduce
+            let k = g.fresh_pub("ItCount");
+            let derive_iter = g.rd.chance(2, 3);
+            let early = g.rd.chance(1, 4);
+            let mut next_body = vec![Stmt::new(StmtKind::If(
+                Expr::bin(BinOp::Ge, getf("i"), getf("n")),
+                vec![ret(stop())],
+                None,
+            ))];
+            if early {
+                // returns the sentinel early, then would continue if asked again
+                next_body.push(Stmt::new(StmtKind::If(
+                    Expr::bin(BinOp::Eq, getf("i"), n(2.0)),
+                    vec![setf("i", Expr::bin(BinOp::Add, getf("i"), n(1.0))), ret(stop())],
+                    None,
+                )));
+            }
+            next_body.push(setf("i", Expr::bin(BinOp::Add, getf("i"), n(1.0))));
+            next_body.push(ret(Expr::bin(BinOp::Mul, getf("i"), n(10.0))));
+            let mut methods = vec![
+                fdef("new", FnKind::Init, vec!["n".into()], vec![setf("i", n(0.0)), setf("n", v("n"))]),
+                fdef("next", FnKind::Method, vec![], next_body),
+            ];
+            if !derive_iter || g.rd.flag() {
+                methods.push(fdef("iter", FnKind::Method, vec![], vec![ret(Expr::SelfE)]));
+            }
+            out.push(Stmt::new(StmtKind::Class(Rc::new(ClassDef {
+                name: k.clone(),
+                superclass: if derive_iter { Some("Iter".into()) } else { None },
+                default_ctor: None,
+                methods,
+                attr_line: Cell::new(0),
+            }))));
+            let x = g.fresh_pub("x");
+            let count = g.rd.below(5) as f64;
+            let mk = || Expr::invoke(v(&k), "new", vec![n(count)]);
+            let gd = g.guard_begin_pub();
+            let s = Stmt::new(StmtKind::For(x.clone(), mk(), vec![Stmt::print(v(&x))]));
+            let s = g.guard_end_pub(gd, s);
+            out.push(s);
+            if derive_iter {
+                g.label_pub("user_iter_adapters");
+                let f = g.lambda_pub(1);
+                let chain = Expr::invoke(Expr::invoke(mk(), if g.rd.flag() { "map" } else { "filter" }, vec![f]), "collect", vec![]);
+                let gd = g.guard_begin_pub();
+                let s = g.guard_end_pub(gd, Stmt::print(chain));
+                out.push(s);
+                let f2 = g.lambda_pub(2);
+                let gd = g.guard_begin_pub();
+                let s = g.guard_end_pub(gd, Stmt::print(Expr::invoke(mk(), "reduce", vec![f2, n(0.0)])));
+                out.push(s);
+            }
+            // a `next` stored in a field takes precedence over the method
+            if g.rd.chance(1, 3) {
+                g.label_pub("next_in_field");
+                let o = g.fresh_pub("o");
+                out.push(Stmt::var(&o, Some(mk())));
+                let st = g.fresh_pub("st");
+                out.push(Stmt::var(&st, Some(n(0.0))));
+                out.push(Stmt::expr(Expr::assign(
+                    Target::Prop(v(&o), "next".into()),
+                    Expr::Lambda(Rc::new(FnDef {
+                        name: RefCell::new(g.next_lambda_name()),
+                        params: vec![],
+                        body: Body::Block(vec![
+                            Stmt::expr(Expr::compound(Target::Var(st.clone()), BinOp::Add, n(1.0))),
+                            Stmt::new(StmtKind::If(Expr::bin(BinOp::Gt, v(&st), n(2.0)), vec![ret(stop())], None)),
+                            ret(Expr::bin(BinOp::Add, v(&st), n(100.0))),
+                        ]),
+                        kind: FnKind::Lambda,
+                    })),
+                )));
+                let y = g.fresh_pub("x");
+                let gd = g.guard_begin_pub();
+                let s = Stmt::new(StmtKind::For(y.clone(), v(&o), vec![Stmt::print(v(&y))]));
+                let s = g.guard_end_pub(gd, s);
+                out.push(s);
+            }
+        }
+        2 => {
+            // iter() hands out a fresh iterator object each time: nested loops are independent
+            let k = g.fresh_pub("ItBag");
+            let c = g.fresh_pub("ItCur");
+            out.push(Stmt::new(StmtKind::Class(Rc::new(ClassDef {
+                name: c.clone(),
+                superclass: Some("Iter".into()),
+                default_ctor: None,
+                methods: vec![
+                    fdef("new", FnKind::Init, vec!["items".into()], vec![setf("items", v("items")), setf("pos", n(0.0))]),
+                    fdef("next", FnKind::Method, vec![], vec![
+                        Stmt::new(StmtKind::If(
+                            Expr::bin(BinOp::Ge, getf("pos"), Expr::invoke(getf("items"), "len", vec![])),
+                            vec![ret(stop())],
+                            None,
+                        )),
+                        setf("pos", Expr::bin(BinOp::Add, getf("pos"), n(1.0))),
+                        ret(Expr::index(getf("items"), Expr::bin(BinOp::Sub, getf("pos"), n(1.0)))),
+                    ]),
+                ],
+                attr_line: Cell::new(0),
+            }))));
+            out.push(Stmt::new(StmtKind::Class(Rc::new(ClassDef {
+                name: k.clone(),
+                superclass: None,
+                default_ctor: None,
+                methods: vec![
+                    fdef("new", FnKind::Init, vec!["items".into()], vec![setf("items", v("items"))]),
+                    fdef("iter", FnKind::Method, vec![], vec![ret(Expr::invoke(v(&c), "new", vec![getf("items")]))]),
+                ],
+                attr_line: Cell::new(0),
+            }))));
+            let b = g.fresh_pub("bag");
+            let items = g.expr_pub(Kind::Vec, 1);
+            out.push(Stmt::var(&b, Some(Expr::invoke(v(&k), "new", vec![items]))));
+            let (x, y) = (g.fresh_pub("x"), g.fresh_pub("x"));
+            let gd = g.guard_begin_pub();
+            let s = Stmt::new(StmtKind::For(
+                x.clone(),
+                v(&b),
+                vec![Stmt::new(StmtKind::For(y.clone(), v(&b), vec![Stmt::print(Expr::TupleLit(vec![v(&x), v(&y)]))]))],
+            ));
+            let s = g.guard_end_pub(gd, s);
+            out.push(s);
+        }
+        3 => {
+            // two loops sharing one iterator object: the inner loop consumes from the outer's stream
+            g.label_pub("shared_iterator");
+            let it = g.fresh_pub("it");
+            let src = match g.rd.below(4) {
+                0 => Expr::invoke(Expr::VecLit((1..=5).map(|k| n(k as f64)).collect()), "iter", vec![]),
+                1 => Expr::invoke(Expr::str("aé€b😀c"), "iter", vec![]),
+                2 => Expr::invoke(g.literal_range_pub(), "iter", vec![]),
+                _ => {
+                    let f = g.lambda_pub(1);
+                    Expr::invoke(Expr::invoke(Expr::TupleLit((1..=6).map(|k| n(k as f64)).collect()), "iter", vec![]), "map", vec![f])
+                }
+            };
+            out.push(Stmt::var(&it, Some(src)));
+            let (x, y) = (g.fresh_pub("x"), g.fresh_pub("x"));
+            let inner_exit = match g.rd.below(3) {
+                0 => vec![Stmt::new(StmtKind::Break)],
+                1 => vec![],
+                _ => vec![Stmt::new(StmtKind::If(Expr::bin(BinOp::Eq, v(&y), n(4.0)), vec![Stmt::new(StmtKind::Break)], None))],
+            };
+            let mut inner = vec![Stmt::print(Expr::TupleLit(vec![v(&x), v(&y)]))];
+            inner.extend(inner_exit);
+            let gd = g.guard_begin_pub();
+            let s = Stmt::new(StmtKind::For(
+                x.clone(),
+                v(&it),
+                vec![Stmt::print(v(&x)), Stmt::new(StmtKind::For(y.clone(), v(&it), inner))],
+            ));
+            let s = g.guard_end_pub(gd, s);
+            out.push(s);
+            // the iterator stays exhausted
+            let gd = g.guard_begin_pub();
+            let s = g.guard_end_pub(gd, Stmt::print(Expr::callv("type", vec![Expr::invoke(v(&it), "next", vec![])])));
+            out.push(s);
+        }
+        4 | 5 => {
+            // mutation of the vector being iterated: index based, never a crash
+            g.label_pub("mutate_while_iterating");
+            let w = g.fresh_pub(if g.at_global_pub() { "g" } else { "v" });
+            let len = 1 + g.rd.below(5);
+            out.push(Stmt::var(&w, Some(Expr::VecLit((0..len).map(|k| n(k as f64)).collect()))));
+            g.declare_pub(&w, Kind::Vec, false);
+            let x = g.fresh_pub("x");
+            let mut body = vec![Stmt::print(v(&x))];
+            match g.rd.below(5) {
+                0 => body.push(Stmt::expr(Expr::invoke(v(&w), "pop", vec![]))),
+                1 => {
+                    body.push(Stmt::expr(Expr::invoke(v(&w), "pop", vec![])));
+                    body.push(Stmt::expr(Expr::invoke(v(&w), "pop", vec![])));
+                }
+                2 => body.push(Stmt::new(StmtKind::If(
+                    Expr::bin(BinOp::Lt, Expr::invoke(v(&w), "len", vec![]), n(8.0)),
+                    vec![Stmt::expr(Expr::invoke(v(&w), "push", vec![Expr::bin(BinOp::Add, v(&x), n(10.0))]))],
+                    None,
+                ))),
+                3 => body.push(Stmt::expr(Expr::assign(Target::Index(v(&w), Expr::num(-1.0)), Expr::str("set")))),
+                _ => {
+                    body.push(Stmt::new(StmtKind::If(
+                        Expr::bin(BinOp::Eq, v(&x), n(1.0)),
+                        vec![Stmt::expr(Expr::invoke(v(&w), "pop", vec![])), Stmt::new(StmtKind::Continue)],
+                        None,
+                    )));
+                    body.push(Stmt::expr(Expr::invoke(v(&w), "push", vec![n(7.0)])));
+                    body.push(Stmt::new(StmtKind::If(Expr::bin(BinOp::Gt, Expr::invoke(v(&w), "len", vec![]), n(7.0)), vec![Stmt::new(StmtKind::Break)], None)));
+                }
+            }
+            let gd = g.guard_begin_pub();
+            let s = Stmt::new(StmtKind::For(x, v(&w), body));
+            let s = g.guard_end_pub(gd, s);
+            out.push(s);
+            out.push(Stmt::print(v(&w)));
+            // an exhausted iterator whose vector then shrinks or grows
+            if g.rd.chance(1, 2) {
+                let it = g.fresh_pub("it");
+                out.push(Stmt::var(&it, Some(Expr::invoke(v(&w), "iter", vec![]))));
+                let y = g.fresh_pub("x");
+                out.push(Stmt::new(StmtKind::For(y, v(&it), vec![])));
+                let gd = g.guard_begin_pub();
+                let s = g.guard_end_pub(gd, Stmt::expr(Expr::invoke(v(&w), "pop", vec![])));
+                out.push(s);
+                let gd = g.guard_begin_pub();
+                let s = g.guard_end_pub(gd, Stmt::print(Expr::callv("type", vec![Expr::invoke(v(&it), "next", vec![])])));
+                out.push(s);
+                out.push(Stmt::expr(Expr::invoke(v(&w), "push", vec![n(1.0)])));
+                out.push(Stmt::expr(Expr::invoke(v(&w), "push", vec![n(2.0)])));
+                let gd = g.guard_begin_pub();
+                let s = g.guard_end_pub(gd, Stmt::print(Expr::invoke(v(&it), "next", vec![])));
+                out.push(s);
+            }
+        }
+        _ => {
+            // early exits from a loop over adapters, then the iterator is used again
+            let it = g.fresh_pub("it");
+            let f = g.lambda_pub(1);
+            out.push(Stmt::var(
+                &it,
+                Some(Expr::invoke(Expr::invoke(Expr::range(n(0.0), n(5.0)), "iter", vec![]), if g.rd.flag() { "map" } else { "filter" }, vec![f])),
+            ));
+            g.note_range(0, 5);
+            let x = g.fresh_pub("x");
+            let gd = g.guard_begin_pub();
+            let s = Stmt::new(StmtKind::For(
+                x.clone(),
+                v(&it),
+                vec![
+                    Stmt::new(StmtKind::If(Expr::bin(BinOp::Eq, v(&x), n(1.0)), vec![Stmt::new(StmtKind::Continue)], None)),
+                    Stmt::print(v(&x)),
+                    Stmt::new(StmtKind::If(Expr::bin(BinOp::Ge, v(&x), n(2.0)), vec![Stmt::new(StmtKind::Break)], None)),
+                ],
+            ));
+            let s = g.guard_end_pub(gd, s);
+            out.push(s);
+            let gd = g.guard_begin_pub();
+            let s = g.guard_end_pub(gd, Stmt::print(Expr::invoke(v(&it), "collect", vec![])));
+            out.push(s);
+        }
+    }
 }
